@@ -437,6 +437,10 @@ class ExprMixin:
         if b.is_py:
             b = self.lift_like(b, a.ty if a.ty.kind != "opt" else a.ty.args[0])
         for which, v in (("a", a), ("b", b)):
+            if v.ty.kind == "opt" and self.spec_mode:      # specifications are total (as for comparisons)
+                if which == "a":
+                    return self.binop(s, op, self.unwrap(a), b, node)
+                return self.binop(s, op, a, self.unwrap(b), node)
             if v.ty.kind == "opt" or v.ty.kind == "none":
                 isn = self.is_none(v)
                 bad, ok = self.branch(s, isn, "none-operand")
